@@ -3,7 +3,7 @@
 set -eu
 cd /verif
 . ./env.sh
-flavour=$1; out=$2
+flavour=$1; out=$(realpath -m "$2")
 cp /repo/go.sum /verif/harness/go.sum
 cd /verif/harness
 case "$flavour" in
